@@ -142,6 +142,8 @@ def _worker(conn, prop, tier, seed):
         from . import props
 
         fams = props.families(prop)
+        for f in fams:
+            f.check_seed = seed
         while True:
             msg = conn.recv()
             if msg is None:
@@ -309,6 +311,7 @@ def replay(path, quiet=False):
 
     doc = load_replay(path)
     fam = props.family_by_name(doc["property"], doc["family"])
+    fam.check_seed = doc.get("seed", 0)
     viols, digest = fam.violations_of(doc["scenario"])
     sigs = [s for s, _ in viols]
     return doc["signature"] in sigs, digest == doc.get("digest"), sigs, doc
